@@ -112,6 +112,9 @@ def probes():
     body = op('DEF') + u1(250) + u2(len(fn)) + fn + op('CALL') + u1(250)
     P['eval_return=on'] = (evret, {}, body, [b'Z'])
     P['eval_return=off'] = (lambda cfg: None, {}, body, [b'Z'])
+    # a setting the embedder passes with a false value is off, exactly as if it had not been passed
+    def evfalse(cfg): cfg.falsy = ('eval_return',)
+    P['eval_return=off/passed-as-False'] = (evfalse, {}, body, [b'Z'])
     # ... and with the EVAL itself inside block constructs / evaluated scripts within that function: the RETURN still
     # ends the whole function when eval_return is on, and only the evaluated script when it is off
     inner_ctx = ['IF', 'IF_ELSE.if', 'IF_ELSE.else', 'TRY', 'EXCEPT', 'LOOP', 'EVAL', 'MERKLEVAL', 'TAPROOT']
